@@ -30,6 +30,17 @@ CHECKS = {
                      "for 2-3 jobs over a textually colliding value domain and 7 path specifications; zip import attributes every member to the job whose root contains it component-wise and writes nothing outside job directories.",
                 note="Trusted: CrossHair path enumeration; stub ZipFile / recording copytree. Outside: compression codecs, >3 jobs in kernels.",
                 ref="DESIGN.md §4 C16"),
+    "C03": dict(tech="SMT-backed symbolic execution (CrossHair+z3) of the real Project/Job API on an in-memory POSIX model with symbolic pre-state/operations; direct z3 regex query on the live JOB_ID_REGEX",
+                text="Bounded proof: z3 decides (unbounded strings) that the names accepted by Project._job_dirs are exactly the 32-character lowercase hex ids; CrossHair confirms the same on constructed names of length 0..40; "
+                     "workspace-equals-model harnesses over a closed state point universe (see evidence for the operation set).",
+                note="Trusted: sre_parse->z3 translation (witnesses replayed on the real function), MemFS POSIX model (validated against tmpfs on every run), CrossHair path enumeration.",
+                ref="DESIGN.md §4 C03"),
+    "C04": dict(tech="SMT-backed symbolic execution (CrossHair+z3) of the real re-key / move / clone code on an in-memory POSIX model next to a plain-dict model",
+                text="Bounded proof: for every (old state point, edit route, value, destination state, handle provenance, sibling kind, payload) in the stated universe the real re-key protocol leaves workspace == model, "
+                     "all live shallow copies follow (id, path, statepoint, cached_statepoint, document), collisions raise DestinationExistsError with both jobs byte-identical, move/clone carry documents and nested files, "
+                     "update_statepoint without overwrite never alters an existing key.",
+                note="Trusted: MemFS POSIX model (validated against tmpfs on every run; counterexamples replayed on the real FS), CrossHair path enumeration, the plain-dict model in vflib/ws.py. One open known finding (collection -> None assignment).",
+                ref="DESIGN.md §4 C04"),
 }
 NOT_YET = {}
 
